@@ -87,13 +87,14 @@ def DNA.children : DNA → List DNA | .mk _ cs => cs
 
 /-- `DNA.__init__` for a non-compositional value (geno/base.py:587-600): a single value-less
 child is replaced by its children; then a value-less node with a single child *is* that child. -/
+def DNA.splice : List DNA → List DNA
+  | [.mk none gcs] => gcs
+  | cs => cs
+
 def DNA.norm (v : Option DVal) (cs : List DNA) : DNA :=
-  let cs1 := match cs with
-    | [.mk none gcs] => gcs
-    | _ => cs
-  match v, cs1 with
+  match v, DNA.splice cs with
   | none, [.mk v' cs'] => .mk v' cs'
-  | _, _ => .mk v cs1
+  | v, cs1 => .mk v cs1
 
 inductive GSpec where
   | space (elems : List GSpec)
@@ -142,32 +143,40 @@ def constraintOk (distinct sorted : Bool) (is : List Nat) : Bool :=
 
 /-! ### `validate` of the geno layer -/
 
+section
+/- `strict = false`: exactly what `spec.validate(dna)` accepts. `strict = true` additionally
+demands that a node whose *children* carry the decisions (a space of >= 2 decision points, a
+multi-choice) has no value of its own — `validate`, `decode` ignore such a stray value, `encode`
+never produces it (finding F53). -/
+variable (strict : Bool)
+
+/-- One (sub-)choice node `(i, children)` against the candidate validators: the index is an int in
+range, and the re-rooted children `DNA(None, children)` are valid for candidate `i`. For a single
+choice `validate` also checks that children are present iff the candidate has decision points. -/
+def validSub (cv : List (Bool × (DNA → Bool))) (checkConst : Bool) : DNA → Bool
+  | .mk (some (.idx i)) cs =>
+    match cv[i]? with
+    | none => false
+    | some (isConst, f) =>
+      (!checkConst || (if isConst then cs.isEmpty else !cs.isEmpty)) && f (DNA.norm none cs)
+  | _ => false
+
 mutual
   /-- `spec.validate(dna)` does not raise. -/
   def validG : GSpec → DNA → Bool
     | .space elems, d =>
       match splitDna elems.length d with
       | none => false
-      | some ds => validL elems ds
+      | some ds => (!strict || decide (elems.length < 2) || d.value.isNone) && validL elems ds
     | .choices k cands distinct sorted, d =>
-      if k = 1 then
-        match d with
-        | .mk (some (.idx i)) cs =>
-          match (candV cands)[i]? with
-          | none => false
-          | some (isConst, f) => (if isConst then cs.isEmpty else !cs.isEmpty) && f (DNA.norm none cs)
-        | _ => false
+      if k = 1 then validSub (candV cands) true d
       else
+        (!strict || d.value.isNone) &&
         decide (d.children.length = k) &&
         (match allIdx d.children with
          | none => false
          | some is => constraintOk distinct sorted is) &&
-        d.children.all (fun s => match s with
-          | .mk (some (.idx i)) cs =>
-            (match (candV cands)[i]? with
-             | none => false
-             | some (_, f) => f (DNA.norm none cs))
-          | _ => false)
+        d.children.all (validSub (candV cands) false)
     | .float lo hi, d =>
       match d with
       | .mk (some (.flt x)) [] => Num.le lo x && Num.le x hi
@@ -179,6 +188,8 @@ mutual
   def candV : List GSpec → List (Bool × (DNA → Bool))
     | [] => []
     | c :: cs => (c.isConstSpace, fun d => validG c d) :: candV cs
+end
+
 end
 
 /-! ### Enumeration and size of finite spaces (what `pg.iter` sweeps) -/
@@ -272,32 +283,40 @@ end
 /-- `ObjectTemplate.dna_spec()`. -/
 def dnaSpec (t : Tmpl) : GSpec := .space (specT W t)
 
+/-- One (sub-)choice node `(i, children)` decoded by candidate template `i` from the re-rooted
+children `DNA(None, children)` (categorical.py:162-163, 211-212). -/
+def decodeSub (fns : List (DNA → Except Err Tmpl)) : DNA → Except Err Tmpl
+  | .mk (some (.idx i)) cs =>
+    match fns[i]? with
+    | none => .error .value
+    | some f => f (DNA.norm none cs)
+  | _ => .error .value
+
+def decodeSubs (fns : List (DNA → Except Err Tmpl)) : List DNA → Except Err (List Tmpl)
+  | [] => .ok []
+  | s :: ss =>
+    match decodeSub fns s with
+    | .error e => .error e
+    | .ok v =>
+      match decodeSubs fns ss with
+      | .error e => .error e
+      | .ok vs => .ok (v :: vs)
+
 /-- One active choice decoded from its DNA, given the decoders of its candidate templates
 (`Choices._decode`, categorical.py:140-213; `OneOf._decode` takes element 0). -/
 def decodeChoice (one : Bool) (k : Nat) (fns : List (DNA → Except Err Tmpl)) (distinct sorted : Bool)
     (d : DNA) : Except Err Tmpl :=
   if k = 1 then
-    match d with
-    | .mk (some (.idx i)) cs =>
-      match fns[i]? with
-      | none => .error .value
-      | some f =>
-        match f (DNA.norm none cs) with
-        | .error e => .error e
-        | .ok v => .ok (if one then v else .node .list [v])
-    | _ => .error .value
+    match decodeSub fns d with
+    | .error e => .error e
+    | .ok v => .ok (if one then v else .node .list [v])
   else
     if d.children.length ≠ k then .error .value else
     match allIdx d.children with
     | none => .error .value
     | some is =>
       if !constraintOk distinct sorted is then .error .value else
-      match d.children.mapM (fun s => match s with
-          | .mk (some (.idx i)) cs =>
-            (match fns[i]? with
-             | none => Except.error Err.value
-             | some f => f (DNA.norm none cs))
-          | _ => Except.error Err.value) with
+      match decodeSubs fns d.children with
       | .error e => .error e
       | .ok vs => .ok (if one then (vs.head?.getD (.const .none)) else .node .list vs)
 
